@@ -105,9 +105,10 @@ same times and every device makes the same observations, provided that
 * every stimulus names a device of the configuration (an interrupt of a system component has no
   counterpart in the flattening);
 * every interrupted device either requests a callback at every update or never requests one
-  (`Oracle.InterruptSafe`): the flat master overwrites the device's own pending callback with the
-  interrupt stamp, the nested master overwrites the enclosing system's entry, which is restored
-  from the inner wakeups after the tick;
+  (`Oracle.InterruptSafe`): the flat master overwrites the device's own (later) pending callback
+  with the interrupt stamp, the nested master overwrites the enclosing system's (later) entry,
+  which is restored from the inner wakeups after the tick (an EARLIER entry would be kept by
+  either master — `when = min(existing wakeup, stamp)` — but timely stimuli never meet one);
 * the stimuli are *timely* along the nested run (`stimsTimely`): the stamp of an interrupt is not
   later than the earliest pending wakeup (it can be later only when the stimulus arrives at the
   very real-time instant the next tick is due and the speed is above 1, or when a callback lies
